@@ -4,11 +4,21 @@
 //!   impl.txt   : an independent Rust evaluation of the netlist on the stimulus, the real
 //!                `compute_area` / `compute_timing` numbers (floats -> integers in units of 1e-9),
 //!                and an independent well-formedness verdict (driver counts, ranges, arities, DFS);
-//!   oracle.txt : the real 4-state simulator's outputs for the RTL on the same stimulus (`x` where
-//!                the reference is not X-free), independently recomputed area sums and the longest
-//!                combinational path by memoised DFS over the driver table.
-//! Failing combinational designs are shrunk in-process (sub-expression hoisting, widths to the
-//! boundary set, signedness dropped, one stimulus vector) and re-emitted with `sig=<signature>`.
+//!   oracle.txt : the RTL reference = the 2-state INTERPRETER's outputs on the same stimulus, a port
+//!                value replaced by `x` (not compared) where the 4-state interpreter shows X/Z, where
+//!                the two interpreters disagree, or where a division guard `g<k> = (divisor == 0)`
+//!                is not 0; independently recomputed area sums; the longest combinational path by
+//!                memoised DFS over the producer relation.
+//! Strata: S0 unsigned <= 64 bit without / %, S1 + signed ports, S2 + / %, S3 + 65..300 bit (all
+//! warning-free); templates `seq` (no read after write, sized resets), `seqraw`, `seqones`,
+//! `counter`, `case`, `mem`, `memraw`, `hier`, `iface`.
+//! A failing combinational design is shrunk in-process (sub-expression hoisting, widths to the
+//! boundary set, signedness dropped, one stimulus vector; never leaving the warning-free strata)
+//! and then classified by DEFECT CLASS: the smallest set of rewritings of the design (wide ternary
+//! conditions reduced, output widened to the self-determined width, `>>>` written `>>`, ports made
+//! unsigned, literals hidden from the constant folder) under which the twin agrees with the
+//! reference; `<id>.shrunk` (must fail) and `<id>.shrunk.twin` (must agree) are emitted with
+//! `sig=<class key>`. Template designs carry their own twin (`<id>.twin`).
 use crate::rng::Rng;
 use crate::util::{Log, Opts};
 use std::collections::BTreeMap;
@@ -143,6 +153,8 @@ fn rand_bits(r: &mut Rng, w: usize) -> Bits {
 // ---------------------------------------------------------------------------------------------
 #[derive(Clone, Debug, PartialEq)]
 enum E {
+    /// `(i0[0] ^ i0[0])`: a 1-bit zero the constant folder cannot see through
+    Zero,
     Port(usize),
     Lit(usize, u64),
     Un(&'static str, Box<E>),
@@ -200,6 +212,7 @@ struct PortSpec {
 impl E {
     fn show(&self, ports: &[PortSpec]) -> String {
         match self {
+            E::Zero => format!("({0}[0] ^ {0}[0])", ports[0].name),
             E::Port(i) => ports[*i].name.clone(),
             E::Lit(w, v) => format!("{}'h{:x}", w, if *w >= 64 { *v } else { v & ((1u64 << w) - 1) }),
             E::Un(op, a) => format!("({}{})", op, a.show(ports)),
@@ -210,7 +223,7 @@ impl E {
     }
     fn size(&self) -> usize {
         match self {
-            E::Port(_) | E::Lit(..) => 1,
+            E::Zero | E::Port(_) | E::Lit(..) => 1,
             E::Un(_, a) => 1 + a.size(),
             E::Bin(_, a, b) | E::Cat(a, b) => 1 + a.size() + b.size(),
             E::If(c, a, b) => 1 + c.size() + a.size() + b.size(),
@@ -218,7 +231,7 @@ impl E {
     }
     fn children(&self) -> Vec<&E> {
         match self {
-            E::Port(_) | E::Lit(..) => vec![],
+            E::Zero | E::Port(_) | E::Lit(..) => vec![],
             E::Un(_, a) => vec![a],
             E::Bin(_, a, b) | E::Cat(a, b) => vec![a, b],
             E::If(c, a, b) => vec![c, a, b],
@@ -227,6 +240,7 @@ impl E {
     /// self-determined (width, signed), IEEE 1800 §11.6/§11.8 shape (only used for signatures)
     fn shape(&self, ports: &[PortSpec]) -> (usize, bool) {
         match self {
+            E::Zero => (1, false),
             E::Port(i) => (ports[*i].width, ports[*i].signed),
             E::Lit(w, _) => (*w, false),
             E::Un(op, a) => match *op {
@@ -252,6 +266,7 @@ impl E {
     }
     fn root_name(&self) -> &'static str {
         match self {
+            E::Zero => "zero",
             E::Port(_) => "port",
             E::Lit(..) => "lit",
             E::Un(op, _) => op_name(op, true),
@@ -307,7 +322,7 @@ impl E {
                     out.push(E::Lit(*w, 1));
                 }
             }
-            E::Port(_) => {}
+            E::Zero | E::Port(_) => {}
         }
         out
     }
@@ -469,7 +484,7 @@ fn clamp_lits(e: &mut E, maxw: usize) {
                 *v &= (1u64 << maxw) - 1;
             }
         }
-        E::Port(_) => {}
+        E::Zero | E::Port(_) => {}
         E::Un(_, a) => clamp_lits(a, maxw),
         E::Bin(_, a, b) | E::Cat(a, b) => {
             clamp_lits(a, maxw);
@@ -1202,6 +1217,36 @@ fn sim_run(ir: &air::Ir, d: &Design, outs: &[(String, usize)], stim: &[Vec<Bits>
     Ok(out)
 }
 
+/// The RTL reference: values of the 2-state INTERPRETER (no JIT, no cc backend); a port value is
+/// replaced by `x` (not compared) where the 4-state interpreter shows X/Z or the two interpreters
+/// disagree (counted), and the division guards are applied.
+fn reference(ir: &air::Ir, d: &Design, outs: &[(String, usize)], stim: &[Vec<Bits>]) -> Result<(Vec<String>, usize), String> {
+    let two = sim_run(ir, d, outs, stim, false)?;
+    let four = sim_run(ir, d, outs, stim, true)?;
+    let mut disagree = 0usize;
+    let merged: Vec<String> = two
+        .iter()
+        .zip(four.iter())
+        .map(|(a, b)| {
+            a.split(':')
+                .zip(b.split(':'))
+                .map(|(x, y)| {
+                    if y == "x" {
+                        "x"
+                    } else if x != y {
+                        disagree += 1;
+                        "x"
+                    } else {
+                        x
+                    }
+                })
+                .collect::<Vec<_>>()
+                .join(":")
+        })
+        .collect();
+    Ok((mask_guards(outs, merged), disagree))
+}
+
 // ---------------------------------------------------------------------------------------------
 // independent well-formedness verdict + longest path (oracles of C20)
 // ---------------------------------------------------------------------------------------------
@@ -1502,9 +1547,14 @@ fn emit(log: &mut Log, id: &str, d: &Design, b: &Built, lib: usize, ram: usize, 
         Err(_) => ("report-panic".into(), "?".into()),
     };
     let gate = panic::catch_unwind(AssertUnwindSafe(|| gate_run(&m, d, stim))).unwrap_or_else(|_| vec!["err-panic".into()]);
-    let sim4 = panic::catch_unwind(AssertUnwindSafe(|| sim_run(&b.ir, d, &out_ports(&m), stim, true)));
+    let sim4 = panic::catch_unwind(AssertUnwindSafe(|| reference(&b.ir, d, &out_ports(&m), stim)));
     let sim4 = match sim4 {
-        Ok(Ok(v)) => Some(mask_guards(&out_ports(&m), v)),
+        Ok(Ok((v, disagree))) => {
+            if disagree > 0 {
+                log.add("interpreter_2state_ne_4state_port_cycles", disagree as u64);
+            }
+            Some(v)
+        }
         Ok(Err(e)) => {
             log.count(&format!("sim_error.{}", e.split(':').next().unwrap_or("")));
             None
@@ -1588,13 +1638,15 @@ fn gen_stim(r: &mut Rng, d: &Design, cycles: usize) -> Vec<Vec<Bits>> {
 // ---------------------------------------------------------------------------------------------
 fn comb_fails(d: &Design, stim: &[Vec<Bits>]) -> Option<usize> {
     let b = panic::catch_unwind(AssertUnwindSafe(|| analyze(&d.src))).ok()?.ok()?;
+    if b.warnings > 0 {
+        return None; // a shrink step must not leave the warning-free strata
+    }
     let m = panic::catch_unwind(AssertUnwindSafe(|| synth(&b.ir, 0, 0))).ok()?.ok()?;
     if m.cells.len() > 40000 {
         return None;
     }
     let gate = panic::catch_unwind(AssertUnwindSafe(|| gate_run(&m, d, stim))).ok()?;
-    let sim = panic::catch_unwind(AssertUnwindSafe(|| sim_run(&b.ir, d, &out_ports(&m), stim, true))).ok()?.ok()?;
-    let sim = mask_guards(&out_ports(&m), sim);
+    let sim = panic::catch_unwind(AssertUnwindSafe(|| reference(&b.ir, d, &out_ports(&m), stim))).ok()?.ok()?.0;
     gate.iter().zip(sim.iter()).position(|(a, s)| a.split(':').zip(s.split(':')).any(|(x, y)| y != "x" && x != y))
 }
 
@@ -1721,7 +1773,7 @@ fn regime(w: usize) -> &'static str {
     }
 }
 
-/// `synth:<root-op>:<signedness-mix>:<width-regime>:value` of a (shrunk) combinational design
+/// fine description of a (shrunk) combinational design, for the evidence only
 fn signature(d: &Design) -> String {
     let e = d.expr.as_ref().unwrap();
     let ch = e.children();
@@ -1731,7 +1783,155 @@ fn signature(d: &Design) -> String {
         ch.iter().map(|c| if c.shape(&d.ins).1 { 's' } else { 'u' }).collect()
     };
     let wmax = ch.iter().map(|c| c.shape(&d.ins).0).chain([d.outs[0].width, e.shape(&d.ins).0]).max().unwrap_or(1);
-    format!("synth:{}:{}:{}:value", e.root_name(), mix, regime(wmax))
+    format!("{}:{}:{}", e.root_name(), mix, regime(wmax))
+}
+
+fn reduce_wide_conditions(e: &E, ports: &[PortSpec], changed: &mut bool) -> E {
+    match e {
+        E::Zero | E::Port(_) | E::Lit(..) => e.clone(),
+        E::Un(op, a) => E::Un(op, Box::new(reduce_wide_conditions(a, ports, changed))),
+        E::Bin(op, a, b) => E::Bin(op, Box::new(reduce_wide_conditions(a, ports, changed)), Box::new(reduce_wide_conditions(b, ports, changed))),
+        E::Cat(a, b) => E::Cat(Box::new(reduce_wide_conditions(a, ports, changed)), Box::new(reduce_wide_conditions(b, ports, changed))),
+        E::If(c, a, b) => {
+            let c2 = reduce_wide_conditions(c, ports, changed);
+            let c3 = if c.shape(ports).0 > 1 {
+                *changed = true;
+                one_bit(c2)
+            } else {
+                c2
+            };
+            E::If(Box::new(c3), Box::new(reduce_wide_conditions(a, ports, changed)), Box::new(reduce_wide_conditions(b, ports, changed)))
+        }
+    }
+}
+
+fn logical_shifts(e: &E, changed: &mut bool) -> E {
+    match e {
+        E::Zero | E::Port(_) | E::Lit(..) => e.clone(),
+        E::Un(op, a) => E::Un(op, Box::new(logical_shifts(a, changed))),
+        E::Bin(op, a, b) => {
+            let op2 = match *op {
+                ">>>" => {
+                    *changed = true;
+                    ">>"
+                }
+                "<<<" => {
+                    *changed = true;
+                    "<<"
+                }
+                o => o,
+            };
+            E::Bin(op2, Box::new(logical_shifts(a, changed)), Box::new(logical_shifts(b, changed)))
+        }
+        E::Cat(a, b) => E::Cat(Box::new(logical_shifts(a, changed)), Box::new(logical_shifts(b, changed))),
+        E::If(c, a, b) => E::If(Box::new(logical_shifts(c, changed)), Box::new(logical_shifts(a, changed)), Box::new(logical_shifts(b, changed))),
+    }
+}
+
+fn opaque_literals(e: &E, changed: &mut bool) -> E {
+    match e {
+        E::Zero | E::Port(_) => e.clone(),
+        E::Lit(..) => {
+            *changed = true;
+            E::Bin("|", Box::new(e.clone()), Box::new(E::Zero))
+        }
+        E::Un(op, a) => E::Un(op, Box::new(opaque_literals(a, changed))),
+        E::Bin(op, a, b) => E::Bin(op, Box::new(opaque_literals(a, changed)), Box::new(opaque_literals(b, changed))),
+        E::Cat(a, b) => E::Cat(Box::new(opaque_literals(a, changed)), Box::new(opaque_literals(b, changed))),
+        E::If(c, a, b) => E::If(Box::new(opaque_literals(c, changed)), Box::new(opaque_literals(a, changed)), Box::new(opaque_literals(b, changed))),
+    }
+}
+
+/// The mechanisms by which `conv/expression.rs` is known to deviate, each with the rewriting of the DESIGN
+/// that takes the mechanism away:
+///   C  a ternary condition wider than 1 bit is used by its LSB         -> reduce every wide condition with `|`
+///   N  `>>`, `>>>`, `/`, `%` evaluated at the (narrower) target width   -> give `o` the self-determined width of the expression
+///   A  `>>>` always fills with the MSB, whatever the signedness         -> write the arithmetic shifts as logical ones
+///   S  an operand extended in its own signedness / relational operators signed by the outer context -> all ports unsigned
+///   K  a constant sub-expression is folded at its own width (`try_constant`), not at the context width -> every literal
+///      `L` written `(L | (i0[0] ^ i0[0]))` (same value, same type, not a constant for the folder)
+/// (C, N and K keep the function of the design; A and S show that the construct is necessary for the failure.)
+/// Returns the class key and the neutralised twin for the first (smallest) set of rewritings under which
+/// the twin is warning-free and agrees with the reference on the same stimulus.
+fn classify_comb(d: &Design, stim: &[Vec<Bits>]) -> Option<(String, Design)> {
+    let e = d.expr.as_ref()?;
+    let ow = d.outs[0].width;
+    let apply = |c: bool, n: bool, a: bool, s: bool, k: bool| -> Option<Design> {
+        let mut ports = d.ins.clone();
+        let mut e2 = e.clone();
+        let mut ow2 = ow;
+        if c {
+            let mut ch = false;
+            e2 = reduce_wide_conditions(&e2, &ports, &mut ch);
+            if !ch {
+                return None;
+            }
+        }
+        if a {
+            let mut ch = false;
+            e2 = logical_shifts(&e2, &mut ch);
+            if !ch {
+                return None;
+            }
+        }
+        if k {
+            let mut ch = false;
+            e2 = opaque_literals(&e2, &mut ch);
+            if !ch {
+                return None;
+            }
+        }
+        if n {
+            let w = e.shape(&d.ins).0;
+            if w <= ow {
+                return None;
+            }
+            ow2 = w;
+        }
+        if s {
+            if !ports.iter().any(|p| p.signed) {
+                return None;
+            }
+            ports.iter_mut().for_each(|p| p.signed = false);
+        }
+        Some(comb_design(ports, ow2, e2, &d.stratum))
+    };
+    const NAMES: [&str; 5] = ["wide-condition", "narrowed-context", "arithmetic-shift", "signedness", "constant-folding"];
+    const SINGLE: [&str; 5] = [
+        "synth:ternary:wide-condition-uses-lsb",
+        "synth:expression:context-narrowed-to-target-width",
+        "synth:ashr:msb-fill-whatever-the-signedness",
+        "synth:expression:signedness-of-operand-extension",
+        "synth:constant-folding:self-width-instead-of-context-width",
+    ];
+    // subsets by size, then in the fixed order C, N, A, S, K
+    let mut sets: Vec<u32> = (1u32..32).collect();
+    sets.sort_by_key(|m| (m.count_ones(), *m));
+    for m in sets {
+        let on = |k: u32| m >> k & 1 == 1;
+        let Some(t) = apply(on(0), on(1), on(2), on(3), on(4)) else { continue };
+        let ok = (|| {
+            let b = panic::catch_unwind(AssertUnwindSafe(|| analyze(&t.src))).ok()?.ok()?;
+            if b.warnings > 0 && !on(3) {
+                return Some(false);
+            }
+            let mo = panic::catch_unwind(AssertUnwindSafe(|| synth(&b.ir, 0, 0))).ok()?.ok()?;
+            let gate = panic::catch_unwind(AssertUnwindSafe(|| gate_run(&mo, &t, stim))).ok()?;
+            let sim = panic::catch_unwind(AssertUnwindSafe(|| reference(&b.ir, &t, &out_ports(&mo), stim))).ok()?.ok()?.0;
+            let differs = gate.iter().zip(sim.iter()).any(|(a, s)| a.split(':').zip(s.split(':')).any(|(x, y)| y != "x" && x != y));
+            let compared = sim.iter().any(|s| s.split(':').next().is_some_and(|v| v != "x"));
+            Some(!differs && compared)
+        })();
+        if ok == Some(true) {
+            let key = if m.count_ones() == 1 {
+                SINGLE[m.trailing_zeros() as usize].to_string()
+            } else {
+                format!("synth:expression:compound:{}", (0..5).filter(|k| on(*k)).map(|k| NAMES[k as usize]).collect::<Vec<_>>().join("+"))
+            };
+            return Some((key, t));
+        }
+    }
+    None
 }
 
 // ---------------------------------------------------------------------------------------------
@@ -1960,10 +2160,21 @@ fn run(opts: &Opts, log: &mut Log) {
                     shrinks += 1;
                     let mut budget = 300usize;
                     let (sd, ss) = shrink_comb(&d, &stim, &mut budget);
-                    let sig = signature(&sd);
-                    log.count(&format!("sig.{sig}"));
+                    let fine = signature(&sd);
+                    log.count(&format!("shrunk.{fine}"));
+                    // class key = the mechanism whose removal makes the shrunk design agree with the simulator
+                    let (sig, twin) = match classify_comb(&sd, &ss) {
+                        Some((k, t)) => (k, Some(t)),
+                        None => (format!("synth:expression:unclassified:{fine}"), None),
+                    };
+                    log.count(&format!("class.{sig}"));
                     if let Ok(Ok(sb)) = panic::catch_unwind(AssertUnwindSafe(|| analyze(&sd.src))) {
                         emit(log, &format!("{id}.shrunk"), &sd, &sb, 0, 0, &ss, Some(&sig));
+                    }
+                    if let Some(t) = twin {
+                        if let Ok(Ok(tb)) = panic::catch_unwind(AssertUnwindSafe(|| analyze(&t.src))) {
+                            emit(log, &format!("{id}.shrunk.twin"), &t, &tb, 0, 0, &ss, Some(&sig));
+                        }
                     }
                 }
             }
